@@ -151,6 +151,7 @@ type H struct {
 	iter   int
 	ctx    string
 	broken bool // a FAIL occurred in the current section: abandon it
+	tag    string // statistics only
 	stats  map[string][2]int
 }
 
@@ -204,21 +205,25 @@ func try(f func()) (r res) {
 // Returns true if neither panicked, i.e. results can be compared.
 func (h *H) samePanic(method string, ra, rb res) bool {
 	if h.stats != nil {
-		s := h.stats[method]
+		key := method + h.tag
+		s := h.stats[key]
 		if ra.panicked {
 			s[1]++
+			mk := key + " :: " + ra.msg
+			ms := h.stats[mk]
+			ms[1]++
+			h.stats[mk] = ms
 		} else {
 			s[0]++
 		}
-		h.stats[method] = s
+		h.stats[key] = s
 	}
 	if !h.ok(ra.panicked == rb.panicked, method, "panic mismatch: generic panicked=%v (%q), id-based panicked=%v (%q)", ra.panicked, ra.msg, rb.panicked, rb.msg) {
 		return false
 	}
 	if ra.panicked {
-		if !rb.model {
-			h.ok(ra.msg == rb.msg, method, "panic message differs: generic %q, id-based %q", ra.msg, rb.msg)
-		}
+		// model panics carry the message of the generic-level validation they stand for
+		h.ok(ra.msg == rb.msg, method, "panic message differs: generic %q, expected %q", ra.msg, rb.msg)
 		return false
 	}
 	return true
@@ -485,16 +490,16 @@ func (p *pair) pickDead() (ecs.Entity, bool) {
 	return p.dead[p.rng.Intn(len(p.dead))], true
 }
 
-// pickTarget: alive (60%), zero (20%), dead (20%).
+// pickTarget: alive (70%), zero (20%), dead (10%).
 func (p *pair) pickTarget() ecs.Entity {
-	r := p.rng.Intn(10)
-	if r < 6 {
+	r := p.rng.Intn(20)
+	if r < 14 {
 		if e, ok := p.pickAlive(); ok {
 			return e
 		}
 		return ecs.Entity{}
 	}
-	if r < 8 {
+	if r < 18 {
 		return ecs.Entity{}
 	}
 	if e, ok := p.pickDead(); ok {
@@ -579,6 +584,45 @@ func namesOf(ts []int) string {
 		s[i] = typeTable[t].name
 	}
 	return strings.Join(s, ",")
+}
+
+// create makes an entity with exactly the given component types in both worlds (ID-based),
+// with a random alive or zero target if it has a relation, and returns it.
+func (p *pair) create(ts []int) ecs.Entity {
+	tg := ecs.Entity{}
+	if x, ok := p.pickAlive(); ok && p.rng.Intn(10) < 7 {
+		tg = x
+	}
+	return p.createT(ts, tg)
+}
+
+// createT is create with a given relation target (must be alive or zero).
+func (p *pair) createT(ts []int, tg ecs.Entity) ecs.Entity {
+	ids := p.idsOf(ts)
+	rel := -1
+	for _, t := range ts {
+		if typeTable[t].isRel {
+			rel = t
+		}
+	}
+	var out ecs.Entity
+	p.both(func(w *ecs.World) {
+		if rel >= 0 {
+			out = ecs.NewBuilder(w, append([]ecs.ID{}, ids...)...).WithRelation(p.ids[rel]).New(tg)
+		} else {
+			out = w.NewEntity(append([]ecs.ID{}, ids...)...)
+		}
+	})
+	p.refresh()
+	return out
+}
+
+// pickOrCreate picks an entity satisfying pred, or creates one with the given composition.
+func (p *pair) pickOrCreate(pred func(r *rec) bool, ts []int) ecs.Entity {
+	if x, ok := p.pickWhere(pred); ok {
+		return x
+	}
+	return p.create(ts)
 }
 
 // both applies the same ID-based operation to both worlds.
@@ -754,10 +798,10 @@ func (p *pair) randomComposition() []int {
 
 // optTarget returns the optional relation target argument.
 // Without a relation on the generic helper a target is passed rarely (expected panic).
-func (p *pair) optTarget(hasRel bool) []ecs.Entity {
+func (p *pair) optTarget(hasRel bool, useful bool) []ecs.Entity {
 	r := p.rng.Intn(100)
 	if hasRel {
-		if r < 50 {
+		if r < 60 && (useful || r < 8) {
 			return []ecs.Entity{p.pickTarget()}
 		}
 		return nil
@@ -902,6 +946,7 @@ func sanity() {
 
 // section runs one section; a panic escaping a section is a harness-level failure that is reported, not a crash.
 func section(h *H, name string, f func()) {
+	h.tag = ""
 	h.broken = false
 	h.ctx = name
 	defer func() {
